@@ -178,6 +178,16 @@ func genLoadOrder(w *bytes.Buffer) {
 		}
 		return true
 	})
+	// getElementPath: how the path of an indexed entry (to unlink on eviction / refusal) is built
+	gep := p.findFunc("diskCache", "getElementPath")
+	var rets []string
+	ast.Inspect(gep.Body, func(n ast.Node) bool {
+		if rs, ok := n.(*ast.ReturnStmt); ok {
+			rets = append(rets, nodeText(p, rs))
+		}
+		return true
+	})
+	namesEmitStringList(w, "getElementPath_return", rets)
 	namesEmitStringList(w, "loadExistingFiles_sort", sorts)
 	namesEmitStringList(w, "loadExistingFiles_add_loop", loops)
 }
